@@ -15,6 +15,15 @@ def C(fn, file, anchor, requires=(), ensures=(), **kw):
 C("P8E0::mul", "src/p8e0/ops.rs", r"pub const fn mul\(self, other: Self\) -> Self",
   ensures=[f"|r: &Self| {S}::mul_ok({_b('self')}, {_b('other')}, {_b('r')}, 8, 0)"], stubbed_in_b=True)
 
+# ---- generic-width decode / encode leaves (patterns are left-aligned in 32 bits, so the 32-bit decode is the N-bit value)
+for _T, _f, _es in (("PxE1", "src/pxe1.rs", 1), ("PxE2", "src/pxe2.rs", 2)):
+    C(f"{_T}::separate_bits_tmp", _f, r"pub\(crate\) const fn separate_bits_tmp\(bits: u32\)",
+      requires=["bits != 0 && bits < 0x8000_0000"],
+      ensures=[f"|r: &(i8, u32)| {S}::septmp_ok(bits as u64, r.0 as i32, r.1 as u64, 32, {_es})"])
+    C(f"{_T}::calculate_regime", _f, r"(pub\(crate\) )?const fn calculate_regime\(k: i8\)",
+      requires=["k != i8::MIN && k != i8::MAX"],
+      ensures=[f"|r: &(u32, bool, u32)| {S}::regime_ok(k as i32, r.0 as u64, r.1, r.2, 32)"])
+
 # ---- a fully modular chain with Kani's own contract machinery: fract(x) = x - trunc(x) is proved against the
 # CONTRACTS of sub and trunc (stub_verified), which are proved against their bodies (proof_for_contract).
 # Woven only in variant C: Kani asserts woven postconditions at every call site, and a postcondition on `sub` would be re-checked
@@ -50,6 +59,7 @@ _SPECIAL = {
     "g_q16.rs": "src/quire16.rs",
     "g_q32.rs": "src/quire32.rs",
     "h_rand.rs": ("src/p16e1.rs", 'feature = "rand"'),
+    "a_leaf_pxe1.rs": "src/pxe1.rs",
     "g_b_q8poly.rs": "src/quire8.rs",
     "g_b_q16poly.rs": "src/quire16.rs",
     "g_b_q32poly.rs": "src/quire32.rs",
